@@ -125,9 +125,87 @@ fn rooted_mode(input: &Input, out: &mut CaseOut) -> Result<(), Failure> {
     Ok(())
 }
 
+/// An active data segment added through the public API (not registered with
+/// its memory, which nothing documents as required) is a GC root like the
+/// parsed ones: edit>emit and edit>gc>emit must behave alike.
+fn added_data_mode(input: &Input, out: &mut CaseOut) -> Result<(), Failure> {
+    use walrus::*;
+    let (bytes, origin, sb) = match input {
+        Input::Choices { gen, bytes } => {
+            let sb: Vec<u8> = bytes.iter().take(64).copied().collect();
+            let rest: Vec<u8> = bytes.iter().skip(64).copied().collect();
+            let p = prepare(&Input::Choices { gen: gen.clone(), bytes: rest }).unwrap();
+            (p.bytes, p.origin, sb)
+        }
+        Input::Wasm { origin, bytes } => {
+            let h = fnv(bytes);
+            (bytes.clone(), origin.clone(), (0..64).map(|i| (mix(h, i) >> 11) as u8).collect::<Vec<u8>>())
+        }
+        _ => return Ok(()),
+    };
+    if crate::optable::validate_walrus(&bytes).is_err() {
+        return Ok(());
+    }
+    let build = |gc: bool| -> Option<Vec<u8>> {
+        let cfg = crate::wal::Cfg::plain().to_config();
+        let mut m = match crate::wal::parse(&bytes, &cfg) {
+            Ok(Ok(m)) => m,
+            _ => return None,
+        };
+        // the first memory that is visible from outside
+        let visible: Vec<MemoryId> = m
+            .exports
+            .iter()
+            .filter_map(|e| match e.item {
+                ExportItem::Memory(id) => Some(id),
+                _ => None,
+            })
+            .collect();
+        let mem = *visible.first()?;
+        let m64 = m.memories.get(mem).memory64;
+        let offset = if m64 { ConstExpr::Value(ir::Value::I64(1)) } else { ConstExpr::Value(ir::Value::I32(1)) };
+        m.data.add(DataKind::Active { memory: mem, offset }, vec![0xAB, 0xCD, 0xEF]);
+        if gc && crate::wal::gc(&mut m).is_err() {
+            return None;
+        }
+        crate::wal::emit(&mut m).ok()
+    };
+    let (a, b) = match (build(false), build(true)) {
+        (Some(a), Some(b)) => (a, b),
+        _ => return Ok(()),
+    };
+    let im = match crate::interp::load(&a) {
+        Ok(m) => m,
+        Err(_) => return Ok(()),
+    };
+    let mut ch = crate::ch::Ch::new(&sb);
+    let host_seed = ch.u64();
+    let script = crate::exec::gen_script(&im, &mut ch, 6);
+    drop(im);
+    let (sa, sbb) = match (crate::exec::observe(&a, &script, host_seed, true), crate::exec::observe(&b, &script, host_seed, true)) {
+        (Ok(x), Ok(y)) => (x, y),
+        (Ok(_), Err(e)) if !e.starts_with("interpreter-panic") => {
+            return Err(Failure::new("api-added-data:gc-output-not-loadable", format!("{} [{}]", e, origin)));
+        }
+        _ => return Ok(()),
+    };
+    if sa.first().map(|s| s.result.is_err()).unwrap_or(false) {
+        return Ok(()); // instantiation of the edited module fails (segment out of bounds): tolerated class
+    }
+    if let crate::exec::Cmp::Differ { at, what, detail } = crate::exec::compare_opts(&sa, &sbb, true) {
+        return Err(Failure::new(
+            format!("api-added-data:behaviour-differs:{}", what),
+            format!("an active data segment was added through ModuleData::add; with GC before emit: step {}: {} [{}]", at, detail, origin),
+        ));
+    }
+    out.label("mode:api-added-active-data");
+    Ok(())
+}
+
 pub fn check(ctx: &Ctx, input: &Input) -> CaseResult {
     let mut r = super::c01::diff_case(ctx, input, true)?;
     rooted_mode(input, &mut r)?;
+    added_data_mode(input, &mut r)?;
     // C06's non-triviality additionally needs GC to have removed something
     if !r.labels.iter().any(|l| l == "gc-removed-something") {
         r.nontrivial = false;
